@@ -75,11 +75,64 @@ TABLE = [
     ("paychSettleDelay", "Int", "actors/paych/src/types.rs", "SETTLE_DELAY"),
     ("paychMaxLane", "Nat", "actors/paych/src/types.rs", "MAX_LANE"),
     ("paychMaxSecretSize", "Nat", "actors/paych/src/types.rs", "MAX_SECRET_SIZE"),
+    # --- C15 (miner penalties, actors/miner/src/monies.rs, policy.rs)
+    ("termFeePledgeNum", "Int", "actors/miner/src/monies.rs", "TERM_FEE_PLEDGE_MULTIPLE_NUM"),
+    ("termFeePledgeDenom", "Int", "actors/miner/src/monies.rs", "TERM_FEE_PLEDGE_MULTIPLE_DENOM"),
+    ("termFeeMinPledgeNum", "Int", "actors/miner/src/monies.rs", "TERM_FEE_MIN_PLEDGE_MULTIPLE_NUM"),
+    ("termFeeMinPledgeDenom", "Int", "actors/miner/src/monies.rs", "TERM_FEE_MIN_PLEDGE_MULTIPLE_DENOM"),
+    ("termFeeMaxFaultFeeNum", "Int", "actors/miner/src/monies.rs", "TERM_FEE_MAX_FAULT_FEE_MULTIPLE_NUM"),
+    ("termFeeMaxFaultFeeDenom", "Int", "actors/miner/src/monies.rs", "TERM_FEE_MAX_FAULT_FEE_MULTIPLE_DENOM"),
+    ("terminationLifetimeCap", "Int", "actors/miner/src/monies.rs", "TERMINATION_LIFETIME_CAP"),
+    ("epochsInDay", "Int", "runtime/src/builtin/network.rs", "EPOCHS_IN_DAY"),
+    ("consensusFaultFactor", "Int", "actors/miner/src/monies.rs", "CONSENSUS_FAULT_FACTOR"),
+    ("expectedLeadersPerEpoch", "Int", "runtime/src/builtin/network.rs", "EXPECTED_LEADERS_PER_EPOCH"),
+    ("consensusFaultReporterShare", "Int", "actors/miner/src/policy.rs", "CONSENSUS_FAULT_REPORTER_DEFAULT_SHARE"),
+    ("continuedFaultProjectionPeriod", "Int", "actors/miner/src/monies.rs", "CONTINUED_FAULT_PROJECTION_PERIOD"),
+    ("invalidWindowPostProjectionPeriod", "Int", "actors/miner/src/monies.rs", "INVALID_WINDOW_POST_PROJECTION_PERIOD"),
+    ("dailyFeeBlockRewardCapDenom", "Int", "runtime/src/runtime/policy.rs", "DAILY_FEE_BLOCK_REWARD_CAP_DENOM"),
+    ("lockedRewardFactorNum", "Int", "actors/miner/src/monies.rs", "LOCKED_REWARD_FACTOR_NUM"),
+    ("lockedRewardFactorDenom", "Int", "actors/miner/src/monies.rs", "LOCKED_REWARD_FACTOR_DENOM"),
+    ("consensusFaultIneligibilityDuration", "Int", "runtime/src/runtime/policy.rs", "CONSENSUS_FAULT_INELIGIBILITY_DURATION"),
 ]
+
+# lazy_static token amounts `static ref NAME: TokenAmount = TokenAmount::from_whole(N);` (attoFIL = N * 10^18)
+WHOLE_TABLE = [
+    ("baseRewardForDisputedWindowPost", "actors/miner/src/monies.rs", "BASE_REWARD_FOR_DISPUTED_WINDOW_POST"),
+    ("basePenaltyForDisputedWindowPost", "actors/miner/src/monies.rs", "BASE_PENALTY_FOR_DISPUTED_WINDOW_POST"),
+]
+
+def cf_reward_failure_branch():
+    """C15 / finding F4: does `report_consensus_fault` add the unsent reporter reward back to the
+    amount burnt when the reward transfer fails?  Structural reading of the source: the body of the
+    `if let Err(e) = extract_send_result(rt.send_simple(&reporter, ...))` block inside
+    `fn report_consensus_fault` is searched for `burn_amount += ...reward_amount`."""
+    text = src("actors/miner/src/lib.rs")
+    m = re.search(r"fn report_consensus_fault\b(.*?)\n    fn ", text, re.S)
+    if not m:
+        raise KeyError("report_consensus_fault")
+    body = m.group(1)
+    k = body.find("failed to send reward")
+    if k < 0 or "send_simple(&reporter" not in body:
+        raise KeyError("report_consensus_fault: reward send / failure branch not found")
+    # the failure block: from the `if let Err` before the log line to the `burn_funds` call after it
+    start = body.rfind("if let Err", 0, k)
+    end = body.find("burn_funds(", k)
+    if start < 0 or end < 0:
+        raise KeyError("report_consensus_fault: failure block shape changed")
+    block = body[start:end]
+    fixed = re.search(r"burn_amount\s*\+=\s*&?\s*reward_amount", block) is not None
+    return "def cfBurnsUnsentReward : Bool := %s" % ("true" if fixed else "false")
 
 def extra_tables():
     """hook for later additions that need custom patterns (policy struct defaults etc.)"""
-    return []
+    out = []
+    for lean, rel, name in WHOLE_TABLE:
+        m = re.search(r"static\s+ref\s+%s\s*:\s*TokenAmount\s*=\s*TokenAmount::from_whole\(\s*([0-9_]+)\s*\)\s*;" % re.escape(name), src(rel))
+        if not m:
+            raise KeyError(name)
+        out.append(f"def {lean} : Int := {int(m.group(1).replace('_', '')) * 10**18}")
+    out.append(cf_reward_failure_branch())
+    return out
 
 def main():
     lines = ["-- GENERATED by tools/extract_constants.py from /repo — do not edit by hand.",
